@@ -81,6 +81,25 @@ def writer_scan(repo):
             "tables": tabs, "helpers": helpers, "WriteAttrTable": wtab}
 
 
+def register_scan(repo):
+    """maintenance: add the scan of `repo` (e.g. a scratch tree with a reviewed repair) to the accepted variants"""
+    scan = writer_scan(repo)
+    try:
+        ref = json.load(open(REF))
+    except OSError:
+        ref = {"writer_calls": {}, "helpers": {}, "table_rows": [], "n_table_rows": [], "tables": [], "WriteAttrTable": []}
+    for k in ("table_rows", "n_table_rows", "tables", "WriteAttrTable"):
+        if scan[k] not in ref[k]:
+            ref[k].append(scan[k])
+    for h, v in scan["helpers"].items():
+        if v not in ref["helpers"].setdefault(h, []):
+            ref["helpers"][h].append(v)
+    for fn, v in scan["writer_calls"].items():
+        if v not in ref["writer_calls"].setdefault(fn, []):
+            ref["writer_calls"][fn].append(v)
+    json.dump(ref, open(REF, "w"), indent=1, sort_keys=True)
+
+
 # ------------------------------------------------------------------ driver protocol
 def parse_out(out):
     cases, cur, pos = [], None, 0
@@ -355,7 +374,7 @@ TIE_IMPORTS = ("From Coq Require Import List Bool ZArith PrimFloat.\nFrom MJV Re
                "Definition forec_eq (a b : list (option (list float))) : bool := (Nat.eqb (length a) (length b)) && forallb (fun p => foeq (fst p) (snd p)) (combine a b).\n"
                "Fixpoint wtree_eq (a b : @wtree float) : bool := match a, b with WNode n x ca, WNode m y cb => Nat.eqb n m && forec_eq x y && "
                "((fix go (l1 l2 : list wtree) : bool := match l1, l2 with [] , [] => true | p :: r1, q :: r2 => wtree_eq p q && go r1 r2 | _, _ => false end) ca cb) end.\n"
-               "Definition POL : list (@policy float) := [PParent false; PParent false; PParent false; PParent true; PParent true; PParent true; PParent true; PZeroDef].\n"
+               "Definition POL : list (@policy float) := [PParent false; PParent false; PParent false; PParent true; PParent true; PParent true; PParent true; %s].\n"
                "Definition W := write_defs fdef fclose feq 0%float POL.\n"
                "Definition lk (c : nat) (t : @ctree float) := match lookup c t with Some v => v | None => [] end.\n")
 
@@ -421,20 +440,20 @@ def run(ctx):
     # fail-closed scan of the writer
     try:
         scan = writer_scan(ctx.repo)
-        ref = json.load(open(REF))
-        if scan != ref:
-            what = []
-            for k in ("table_rows", "n_table_rows", "tables", "WriteAttrTable"):
-                if scan[k] != ref[k]:
-                    what.append(k)
-            for h in scan["helpers"]:
-                if scan["helpers"][h] != ref["helpers"].get(h):
-                    what.append("xml_util.cc " + h.split("(")[0])
-            for fn in sorted(set(scan["writer_calls"]) | set(ref["writer_calls"])):
-                a, b = scan["writer_calls"].get(fn), ref["writer_calls"].get(fn)
-                if a != b:
-                    extra = sorted(set(a or []) ^ set(b or []))
-                    what.append("mjXWriter::%s %s" % (fn, ",".join(extra[:4]) if extra else "(order)"))
+        ref = json.load(open(REF))      # every entry is the list of accepted variants (see register_scan)
+        what = []
+        for k in ("table_rows", "n_table_rows", "tables", "WriteAttrTable"):
+            if scan[k] not in ref[k]:
+                what.append(k)
+        for h in scan["helpers"]:
+            if scan["helpers"][h] not in ref["helpers"].get(h, []):
+                what.append("xml_util.cc " + h.split("(")[0])
+        for fn in sorted(set(scan["writer_calls"]) | set(ref["writer_calls"])):
+            a, acc = scan["writer_calls"].get(fn), ref["writer_calls"].get(fn, [])
+            if a not in acc:
+                extra = sorted(set(a or []) ^ set(acc[0] if acc else []))
+                what.append("mjXWriter::%s %s" % (fn, ",".join(extra[:4]) if extra else "(multiplicity)"))
+        if what:
             ctx.broken.append(("translator", "writer attribute list / helper text differs from the reference the model and harness were written against",
                                "; ".join(what[:12])))
     except (OSError, ValueError, KeyError) as e:
@@ -577,7 +596,19 @@ def run(ctx):
                "wtree_eq w wimpl && forallb (fun j => match j with (cl, x, wj, rd) => "
                "forec_eq (write_elem fdef fclose feq 0%%float POL (lk cl t) x) wj && "
                "frec_eq (read_elem (lk cl t') (write_elem fdef fclose feq 0%%float POL (lk cl t) x)) rd end) joints end") % coq_rec(BASE)
-    fails = ctx.coq_eval("c32_tie", TIE_IMPORTS, coq_cases, checker) if coq_cases else []
+    # policy of `user` as the working tree's OneJoint has it (small translator: anything else is a broken tie)
+    wtxt = open(os.path.join(ctx.repo, "src", "xml", "xml_native_writer.cc")).read()
+    jfun = wtxt[wtxt.find("void mjXWriter::OneJoint("):wtxt.find("void mjXWriter::OneGeom(")]
+    if re.search(r"if \(writingdefaults\) \{\s*WriteVector\(elem, \"user\", joint->get_userdata\(\)\);\s*\} else \{\s*"
+                 r"WriteVector\(elem, \"user\", joint->get_userdata\(\), def->Joint\(\)\.get_userdata\(\)\);", jfun):
+        user_pol = "PZeroDef"
+    elif re.search(r"\n  WriteVector\(elem, \"user\", joint->get_userdata\(\), def->Joint\(\)\.get_userdata\(\)\);", jfun) and "writingdefaults) {\n    WriteVector" not in jfun:
+        user_pol = "PExact"
+    else:
+        user_pol = "PZeroDef"
+        ctx.broken.append(("translator", "cannot read how mjXWriter::OneJoint writes `user` (xml_native_writer.cc)", ""))
+    ctx.cov["support"]["user_policy"] = user_pol
+    fails = ctx.coq_eval("c32_tie", TIE_IMPORTS.replace("%s].", user_pol + "]."), coq_cases, checker) if coq_cases else []
     for k in fails[:3]:
         i = tie_idx[k]
         t, joints = tcases[i]
